@@ -32,6 +32,7 @@ RULE_DOC = {
     'R6': '`if let P = E && C { B }` without else -> `if let P = E { if C { B } }` (definition of a let chain)',
     'R8': '`let v = M.values().filter(|p| C).map(|q| E).min();` -> `let mut v = None; for (_, p) in M.iter() { if C { v = opt_min(v, E) } }` (std: minimum of the filtered, mapped values; opt_min is a verified helper)',
     'R9': '`let v: Vec<T> = M.iter().filter(|(a, b)| BODY).map(|(i, _)| *i).collect();` -> `let mut v = Vec::new(); for (a, b) in M.iter() { if BODY { v.push(*a) } }` (std semantics of filter/map/collect; the closure body is copied verbatim)',
+    'R10': 'a closure passed to Vec::retain gets a parameter type, a named bool result and braces (`|t| E` -> `|t: T| -> (r: bool) { E }`) so that requires/ensures can be attached; the body is verbatim',
     'R7': '`x op= e` / method sugar spelled out where Verus lacks the operator form (recorded per site)',
     'E1': 'foreign field/param types replaced by a declared stand-in with an assumed contract (FxHashMap/FxHashSet -> std HashMap/HashSet, opaque ArcStr/Term ...)',
     'E2': 'Atomic{U64,Usize}::{load,store,fetch_add,fetch_sub} on a field -> plain read / write / read-modify-write (single-threaded semantics)',
@@ -247,6 +248,35 @@ class Piece:
                % (var, m.group(1), ind, m.group(2), ind, fm.group(1), fm.group(2), ind, fm.group(3).strip(), ind, var, ind))
         self.text = text[:m.start()] + new + text[end + 1:]
         self._fired('R9', 'filter/map/collect over map entries -> loop + push')
+        return self
+
+    def R10(self, method, param_ty, annotate):
+        """`.method(|p| BODY)` -> `.method(|p: TY| -> (r: bool) <clauses(i)> { BODY })`: the closure gets a type annotation, a named
+        result and braces so that a contract can be attached; BODY is copied verbatim.  annotate(i) returns the clauses for the i-th site."""
+        text = self.text
+        n = 0
+        pos = 0
+        while True:
+            code = scan(text)
+            m = re.compile(r'\.%s\(\|(\w+)\|\s*' % re.escape(method)).search(text, pos)
+            if not m:
+                break
+            if not code[m.start()]:
+                pos = m.end()
+                continue
+            op = text.index('(', m.start())
+            cl = match_close(text, code, op)
+            body = text[m.end():cl].strip()
+            if body.startswith('{') and body.endswith('}') and match_close(body, scan(body), 0) == len(body) - 1:
+                body = body[1:-1].strip()
+            new = '.%s(|%s: %s| -> (r: bool) %s { %s })' % (method, m.group(1), param_ty, annotate(n), body)
+            text = text[:m.start()] + new + text[cl + 1:]
+            pos = m.start() + len(new)
+            n += 1
+        if n == 0:
+            raise LostAnchor('rule R10 in %s: no `.%s(|p| ..)` site' % (self.label, method))
+        self.text = text
+        self._fired('R10', '%d closure(s) passed to %s annotated' % (n, method))
         return self
 
     def R4(self):
